@@ -346,11 +346,7 @@ func (tc *typechecker) typeof(expr ast.Expression, typeExpected bool) *typeInfo 
 			ti.Type = tc.types.PointerTo(t.Type)
 			// When taking the address of a variable, such variable must be
 			// marked as "indirect".
-			if ident, ok := expr.Expr.(*ast.Identifier); ok {
-				if _, decl, ok := tc.scopes.LookupInFunc(ident.Name); ok {
-					tc.compilation.indirectVars[decl] = true
-				}
-			}
+			tc.markAddressedVar(expr.Expr)
 		case ast.OperatorXor:
 			if t.Nil() || !isInteger(k) {
 				panic(tc.errorf(expr, "invalid operation: ^ %s", t))
@@ -727,6 +723,11 @@ func (tc *typechecker) typeof(expr ast.Expression, typeExpected bool) *typeInfo 
 		}
 		if hv != nil && mv != nil && hv.int64() > mv.int64() {
 			panic(tc.errorf(expr, "invalid slice index: %d > %d", hv, mv))
+		}
+		// Slicing an array variable (or an array that is part of a variable)
+		// takes its address: the variable must be marked as "indirect".
+		if kind == reflect.Array {
+			tc.markAddressedVar(expr.Expr)
 		}
 		// Transform the tree: if a is a pointer to an array, a[low : high] is
 		// shorthand for (*a)[low : high]; also, if a is a pointer to an array,
@@ -2543,6 +2544,35 @@ func (tc *typechecker) checkMethodExpression(t *typeInfo, expr *ast.Selector) *t
 	}
 
 	return ti
+}
+
+// markAddressedVar marks as "indirect" the local variable whose storage is
+// addressed by &expr or by slicing expr: expr is the variable itself, or a
+// field or an array element, at any depth, of the variable. Once a pointer or
+// a slice refers to the storage of the variable, an assignment to the variable
+// must write into that storage instead of replacing it.
+func (tc *typechecker) markAddressedVar(expr ast.Expression) {
+	for {
+		switch e := expr.(type) {
+		case *ast.Identifier:
+			if _, decl, ok := tc.scopes.LookupInFunc(e.Name); ok {
+				tc.compilation.indirectVars[decl] = true
+			}
+			return
+		case *ast.Index:
+			if ti := tc.compilation.typeInfos[e.Expr]; ti == nil || ti.Type == nil || ti.Type.Kind() != reflect.Array {
+				return
+			}
+			expr = e.Expr
+		case *ast.Selector:
+			if ti := tc.compilation.typeInfos[e.Expr]; ti == nil || ti.Type == nil || ti.Type.Kind() != reflect.Struct {
+				return
+			}
+			expr = e.Expr
+		default:
+			return
+		}
+	}
 }
 
 // checkMethodValue checks a method value. If the type has the method, it
